@@ -51,6 +51,8 @@ func init() {
 			}
 		}
 	}
+	experiments["Xmake"] = func(p *Prog, r *Report) { makeThenAppendRule(p, r, "make", p.RepoFuncs()) }
+	experiments["Xname"] = func(p *Prog, r *Report) { siblingNameWiringRule(p, r, "name", p.RepoFuncs()) }
 	experiments["Xnil"] = func(p *Prog, r *Report) {
 		optionalDerefAudit(p, r, "nil", p.RepoFuncs(), 1)
 	}
@@ -91,7 +93,8 @@ var extraAnchors = map[string][]string{
 	"C19": {"internal/app/referenceserver/impl.go", "internal/app/referenceserver/raw_response.go", "internal/app/grpcserver/impl.go"}, // the over-limit error reaches the client through the handlers and the first-request pre-read
 	"C18": {"internal/app/referenceserver/impl.go"},                                                                                    // grpcStatusTrailers: the Connect error -> gRPC status form
 	"C16": {"internal/tracer/http2.go"},                                                                                                // the HTTP/2 retry collector completes traces towards the Tracer
-	"C02": {"internal/app/referenceclient/wire_details.go"},                                                                            // wire feedback fails a case whose result matched
+	"C02": {"internal/app/referenceclient/wire_details.go"},
+	"C05": {"internal/app/connectconformance/test_trie.go"}, // the run/skip filter (filter.apply) is a trie match                                                                            // wire feedback fails a case whose result matched
 }
 
 func anchorFiles(propID string) []string {
@@ -634,6 +637,8 @@ func anchoredGeneralRules(p *Prog, r *Report, propID string) {
 		inScope[fn] = true
 	}
 	noDataFormatStringRule(p, r, "anchored-format", func(fn *ssa.Function) bool { return inScope[fn] })
+	makeThenAppendRule(p, r, "anchored-make-append", scope)
+	siblingNameWiringRule(p, r, "anchored-name", scope)
 }
 
 // arityGuardRule: in both reference clients' Invoke, the calls of unary,
@@ -683,4 +688,220 @@ func sortedKeysInt(m map[string]int) []string {
 	}
 	sort.Strings(ks)
 	return ks
+}
+
+// ---------- cross-property attribution ----------
+
+// crossPropertyRules: a rule guards a construct; a property owns the
+// constructs in the files it is anchored in. Every obligation that ANOTHER
+// property's targeted rules establish at a position inside one of this
+// property's anchored files is therefore also an obligation of this property
+// (key `via.<other>.<key>`): breaking the construct breaks the mechanism this
+// property relies on as well. Obligations without a source position (tables
+// spanning several files) stay with their own property.
+func crossPropertyRules(p *Prog, r *Report, propID string) {
+	pats := anchorFiles(propID)
+	inAnchors := func(pos string) bool {
+		if pos == "" || pos == "-" {
+			return false
+		}
+		file := pos
+		if i := strings.Index(file, ":"); i > 0 {
+			file = file[:i]
+		}
+		for _, pat := range pats {
+			if ok, _ := filepath.Match(pat, file); ok {
+				return true
+			}
+		}
+		return false
+	}
+	own := map[string]bool{}
+	for _, o := range r.Obls {
+		own[strings.TrimPrefix(o.Key, propID+".")] = true
+	}
+	// a recorded finding stays with the property it was recorded for: whether
+	// that defect also breaks THIS property was not established
+	known := map[string]bool{}
+	for _, kf := range loadKnownFindings(verifDir) {
+		known[kf.Key] = true
+	}
+	ids := make([]string, 0, len(registry))
+	for id := range registry {
+		ids = append(ids, id)
+	}
+	sort.Strings(ids)
+	n := 0
+	for _, q := range ids {
+		if q == propID {
+			continue
+		}
+		tmp := NewReport(q)
+		registry[q].Run(p, tmp)
+		for _, extra := range round2Rules[q] {
+			extra(p, tmp)
+		}
+		for _, extra := range round3Rules[q] {
+			extra(p, tmp)
+		}
+		for _, extra := range round4Rules[q] {
+			extra(p, tmp)
+		}
+		for _, o := range tmp.Obls {
+			k := strings.TrimPrefix(o.Key, q+".")
+			if strings.HasPrefix(k, "floor.") || own[k] || !inAnchors(o.Pos) || known[o.Key] {
+				continue
+			}
+			// panic-audit sites are covered by this property's own anchored-crash audit
+			if o.Rule == "R-PANIC" || o.Rule == "R-INV" {
+				continue
+			}
+			o.Key = "via." + q + "." + k
+			r.add(o)
+			n++
+		}
+	}
+	r.Extra["cross_property_obligations"] = n
+}
+
+// ---------- G-MAKEAPPEND ----------
+
+// makeThenAppendRule: a slice created with make([]T, n) for a non-constant or
+// non-zero n (length, not capacity) is not subsequently only appended to: its
+// first n elements would stay zero values (nil pointers) in front of the
+// appended ones.
+func makeThenAppendRule(p *Prog, r *Report, key string, scope []*ssa.Function) {
+	n := 0
+	var bad []string
+	for _, fn := range scope {
+		eachInstr(fn, func(in ssa.Instruction) {
+			mk, ok := in.(*ssa.MakeSlice)
+			if !ok {
+				return
+			}
+			if k, isK := constInt(mk.Len); isK && k == 0 {
+				return
+			}
+			n++
+			// all uses, through phis: indexed stores / copy / passing on make it a legitimate sized slice
+			onlyAppended, appended := true, false
+			seen := map[ssa.Value]bool{}
+			var walk func(v ssa.Value)
+			walk = func(v ssa.Value) {
+				if seen[v] || v.Referrers() == nil {
+					return
+				}
+				seen[v] = true
+				for _, ref := range *v.Referrers() {
+					switch x := ref.(type) {
+					case *ssa.DebugRef:
+					case *ssa.Phi:
+						walk(x)
+					case *ssa.Call:
+						if b, isB := x.Call.Value.(*ssa.Builtin); isB && b.Name() == "append" && len(x.Call.Args) > 0 && x.Call.Args[0] == v {
+							appended = true
+							walk(x)
+						} else if isB && (b.Name() == "len" || b.Name() == "cap") {
+						} else {
+							onlyAppended = false
+						}
+					case *ssa.Store:
+						if x.Val == v {
+							// stored into a variable: follow loads of a local cell
+							if al, isAl := x.Addr.(*ssa.Alloc); isAl {
+								for _, r2 := range *al.Referrers() {
+									if u, isU := r2.(*ssa.UnOp); isU {
+										walk(u)
+									}
+								}
+							} else if fv, isFV := x.Addr.(*ssa.FreeVar); isFV {
+								// a captured variable: follow its loads in this function (the enclosing
+								// function's uses are ranges/lens over the finished slice)
+								eachInstr(fn, func(i2 ssa.Instruction) {
+									if u, isU := i2.(*ssa.UnOp); isU && u.Op == token.MUL && u.X == ssa.Value(fv) {
+										walk(u)
+									}
+								})
+							} else {
+								onlyAppended = false
+							}
+						}
+					case *ssa.Range, *ssa.Return:
+					default:
+						onlyAppended = false
+					}
+				}
+			}
+			walk(mk)
+			if appended && onlyAppended {
+				bad = append(bad, p.InstrPos(in)+" in "+shortFn(fn)+": make(…, "+path(mk.Len)+") is only ever appended to")
+			}
+		})
+	}
+	sort.Strings(bad)
+	r.Sites += n
+	r.Extra[key+"_sized_makes"] = n
+	r.Check(len(bad) == 0, key, "R-WIRE", "-", fmt.Sprintf("%d slices created with a non-zero length, none is only appended to", n),
+		"a slice is created with a non-zero LENGTH and then only appended to: "+strings.Join(bad, "; ")+" — it starts with that many zero values (nil pointers) in front of the appended elements")
+}
+
+// ---------- G-NAME: sibling-name wiring ----------
+
+// siblingNameWiringRule: a struct field F is not initialised from a value whose
+// own name is exactly the name of a same-typed sibling field G (getter GetG(),
+// field .G, variable g) unless it also carries F's name.
+func siblingNameWiringRule(p *Prog, r *Report, key string, scope []*ssa.Function) {
+	n := 0
+	leafName := func(v ssa.Value) string {
+		v = canon(v)
+		if c, ok := v.(*ssa.Call); ok && c.Call.StaticCallee() != nil && len(c.Call.Args) == 1 {
+			return strings.TrimPrefix(c.Call.StaticCallee().Name(), "Get")
+		}
+		if f := loadedField(v); f != nil {
+			return f.Name()
+		}
+		if nm, ok := localName(v); ok {
+			return nm
+		}
+		return ""
+	}
+	norm := func(s string) string { return strings.ToLower(strings.ReplaceAll(s, "_", "")) }
+	for _, fn := range scope {
+		eachInstr(fn, func(in ssa.Instruction) {
+			st, ok := in.(*ssa.Store)
+			if !ok {
+				return
+			}
+			fa, ok := st.Addr.(*ssa.FieldAddr)
+			if !ok {
+				return
+			}
+			pt, ok := fa.X.Type().Underlying().(*types.Pointer)
+			if !ok {
+				return
+			}
+			stt, ok := pt.Elem().Underlying().(*types.Struct)
+			if !ok {
+				return
+			}
+			fi := stt.Field(fa.Field)
+			ln := leafName(st.Val)
+			if ln == "" || norm(ln) == norm(fi.Name()) || strings.Contains(norm(ln), norm(fi.Name())) || strings.Contains(norm(fi.Name()), norm(ln)) {
+				return
+			}
+			for j := 0; j < stt.NumFields(); j++ {
+				fj := stt.Field(j)
+				if j == fa.Field || !types.Identical(fi.Type(), fj.Type()) && !types.Identical(types.Default(st.Val.Type()), fj.Type()) {
+					continue
+				}
+				if norm(fj.Name()) == norm(ln) {
+					n++
+					r.Sites++
+					r.Fail(fmt.Sprintf("%s.%s.field.%s", key, shortFn(fn), fi.Name()), "R-WIRE", p.InstrPos(in),
+						fmt.Sprintf("in %s field %s is set from %s, which is the name of its same-typed sibling field %s: the two initialisers look exchanged or copy-pasted", shortFn(fn), fi.Name(), path(st.Val), fj.Name()))
+				}
+			}
+		})
+	}
+	r.OK(key, "R-WIRE", "-", "no struct field is initialised from a value named like a same-typed sibling field")
 }
